@@ -11,7 +11,8 @@ import (
 )
 
 // VerifJsepErrClass maps an error of CreateOffer, CreateAnswer,
-// SetLocalDescription, SetRemoteDescription or AddTransceiverFromKind to the
+// SetLocalDescription, SetRemoteDescription, AddTransceiverFromKind, AddTrack
+// or RemoveTrack to the
 // short class name used by the verification model (properties C06, C07, C09).
 // Unknown errors map to "other", so the comparison with the model fails
 // visibly instead of depending on message text.
@@ -41,6 +42,10 @@ func VerifJsepErrClass(err error) string { //nolint:cyclop
 		return "unsupported-direction"
 	case errors.Is(err, errRTPTransceiverCannotChangeMid):
 		return "cannot-change-mid"
+	case errors.Is(err, errRTPTransceiverSetSendingInvalidState):
+		return "set-sending-invalid-state"
+	case errors.Is(err, ErrSenderNotCreatedByConnection):
+		return "no-such-sender"
 	case errors.Is(err, io.EOF):
 		return "sdp-parse"
 	default:
@@ -54,4 +59,11 @@ func (pc *PeerConnection) VerifGreaterMid() int {
 	defer pc.mu.RUnlock()
 
 	return pc.greaterMid
+}
+
+// VerifJsepCurrentDirections returns the transceiver's currentDirection and
+// currentRemoteDirection, the two fields AddTrack's reuse rule (isSendAllowed)
+// reads besides Sender().
+func (t *RTPTransceiver) VerifJsepCurrentDirections() (RTPTransceiverDirection, RTPTransceiverDirection) {
+	return t.getCurrentDirection(), t.getCurrentRemoteDirection()
 }
